@@ -323,6 +323,39 @@ def row_reset_rule(rep, f):
     rep.floor("C15.e", n, 3)
 
 
+def pool_free_rule(rep, f, rid="C15.f"):
+    rep.rule(rid, "no registry outlives the pool it points into: the per-attribute registry fAttDefRegistry maps XMLAttDef* to "
+             "counters that live in the scanner's unsigned-int pool; every call of XMLScanner::recreateUIntPool (which frees the "
+             "pool's rows) is preceded on every path, in the same function, by fAttDefRegistry->removeAll() — otherwise the next "
+             "parse of the reused scanner reads and writes freed memory through the stale entries")
+    callers = {}
+    for x in f.kind("call"):
+        if x["x"][1] == "XMLScanner::recreateUIntPool" and x["_fn"]["q"] != "XMLScanner::recreateUIntPool":
+            callers[(x["_fn"]["q"], x["_fn"]["file"])] = 1
+    if len(callers) < 3:
+        raise AnalysisBroken("fewer than 3 callers of XMLScanner::recreateUIntPool (%d)" % len(callers))
+    tus = sorted({os.path.join(core.REPO, fl) for (_, fl) in callers if fl.endswith(".cpp")})
+    g = core.run_xa(tus, cfg="^(" + "|".join(sorted({re.escape(q) for (q, _) in callers})) + ")$", flat=False)
+    n = 0
+    for (q, fl) in sorted(callers):
+        for raw in g.cfgs.get(q, []):
+            cfg = guard.Cfg(raw)
+
+            def is_clear(el):
+                return any(c[0] == "c" and c[1].split("::")[-1] == "removeAll" and c[2] and c[2][0] == "f" and c[2][1].endswith("::fAttDefRegistry")
+                           for c in guard.el_top_calls(el))
+
+            def is_free(el):
+                return any(c[0] == "c" and c[1] == "XMLScanner::recreateUIntPool" for c in guard.el_top_calls(el))
+            for b, i, el, ok in guard.must_precede(cfg, is_clear, is_free):
+                n += 1
+                rep.ob(rid, "%s@recreateUIntPool" % q, ok, "registry emptied first" if ok else
+                       "%s (line %s) frees the unsigned-int pool without first emptying fAttDefRegistry: its entries keep pointing into "
+                       "the freed rows (use after free on the next parse with more than 1024 declared attributes behind it)" % (q, el.get("l")),
+                       "%s:%s" % (fl, el.get("l", 0)))
+    rep.floor(rid, n, 3)
+
+
 def run(rep):
     f = core.library_facts()
     rep.units.update(os.path.relpath(t, core.REPO) for t in f.tus)
@@ -330,6 +363,7 @@ def run(rep):
     janitor_rule(rep, f)
     locked_pool_rule(rep, f)
     row_reset_rule(rep, f)
+    pool_free_rule(rep, f)
     diag.run(rep, f, "C15")
     rep.undecided += ["equality of the n-th parse's outcome with a fresh parser's (value-level)",
                       "transparency of cached/preloaded grammars for validation verdicts",
